@@ -421,10 +421,11 @@ type c27script struct {
 	HostSubs bool   // the hostile peer announces subscriptions
 	HonestN  int    // honest API publishes by V and W interleaved
 	Chains   int    // number of history-dependent forgery chains spliced into Packets
+	NC       int    // number of honestly signed, non-canonically encoded messages spliced into Packets
 }
 
 func (s *c27script) desc() string {
-	return fmt.Sprintf("vsubs=%v chunk=%d garbage=%q hostsubs=%v honestN=%d chains=%d packets=%v", s.VSubs, s.Chunk, s.Garbage, s.HostSubs, s.HonestN, s.Chains, s.Packets)
+	return fmt.Sprintf("vsubs=%v chunk=%d garbage=%q hostsubs=%v honestN=%d chains=%d noncanonical=%d packets=%v", s.VSubs, s.Chunk, s.Garbage, s.HostSubs, s.HonestN, s.Chains, s.NC, s.Packets)
 }
 
 func genC27(rng *rand.Rand, idx int) *c27script {
@@ -604,12 +605,21 @@ func runC27(r *vf.Run, env *g9mesh.Env, pool []*keys.Identity, s *c27script, jr 
 	// and the honest API publishers then run concurrently
 	var wg sync.WaitGroup
 	sent := map[string]int{}
-	forged, histForged := 0, 0
+	forged, histForged, ncSent, ncDelivered := 0, 0, 0, 0
 	var pkts []*floodsub.Packet
 	for _, cl := range s.Packets {
 		pkt := &floodsub.Packet{}
 		for _, class := range cl {
-			c := cr.make(class)
+			var c *crafted
+			if strings.HasPrefix(class, "nc-") {
+				var shadowed *crafted
+				if c, shadowed = cr.makeNC(class); shadowed != nil {
+					reg(shadowed)
+				}
+				ncSent++
+			} else {
+				c = cr.make(class)
+			}
 			cr.record(c)
 			if !c.Shadow {
 				reg(c)
@@ -702,6 +712,9 @@ func runC27(r *vf.Run, env *g9mesh.Env, pool []*keys.Identity, s *c27script, jr 
 			if d.Node == 0 && c.Class != "honest-api" {
 				honestFromHostileDelivered++
 			}
+			if d.Node == 0 && strings.HasPrefix(c.Class, "nc-") {
+				ncDelivered++
+			}
 		}
 	}
 	// (2) what the real nodes put on the wire
@@ -734,6 +747,8 @@ func runC27(r *vf.Run, env *g9mesh.Env, pool []*keys.Identity, s *c27script, jr 
 		cls = append(cls, c)
 	}
 	r.Count("history_dependent_forgeries_sent", histForged)
+	r.Count("noncanonical_signed_messages_sent", ncSent)
+	r.Count("noncanonical_authentic_callbacks_at_V", ncDelivered)
 	if s.Chains > 0 {
 		r.Count("scripts_with_history_chains", 1)
 	}
@@ -757,7 +772,7 @@ func sortStrings(s []string) {
 func TestC27(t *testing.T) {
 	r := vf.Start(t, "C27", vf.Exploration)
 	defer r.Finish()
-	r.SetRule("script = a real FloodSub node V (subscribing alpha, beta or both) with a real honest neighbour W (subscribing alpha, beta, gamma: it would take anything V forwards) and a hostile stream on which the harness writes 5-12 publish packets of 1-3 crafted SignedMsgs (20 classes: honest, honest for a channel V does not subscribe, replay, tampered body, inner channel rewritten, foreign signature with claimed sender, wrong signing contexts, empty channel, bad/empty sender, damaged/missing signature, changed hash type ...; claimed senders include V and W themselves), optional chunked delivery (1-9 bytes per read), optional trailing garbage frame, interleaved with 0-4 honest API publishes by V and W. Every second script additionally carries 2-4 history-dependent forgery chains on the hostile stream (wire order = history): an accepted message (sender A; also the attacker's own authentic message or one for an unsubscribed channel), then optionally a message naming another sender X that is REJECTED (damaged after signing) or accepted, optionally a further message, then a forgery derived from that history: claims the last accepted / an earlier accepted sender but is signed with the key of the sender named immediately before / the attacker / any earlier named sender (with or without that signer's public key attached), or re-uses the signature of an earlier accepted message with changed data, changed inner channel, changed sender, or on another message of the same sender; optionally a second forgery; chains are split over packets in every way (one entry per packet, whole chain in one packet, PRNG cuts) while 2-6 API publishes of V and W flow on the other stream. Non-trivial = at least one forged message was written and at least one authentic message from the hostile stream was handed to a V handler (so the stream was live and the reference signing context is right). Oracle = harness ground truth by construction: every handler callback and every copy V or W put on any wire must be a message that is authentic (signed by the claimed sender under context+channel), for the handler's / a subscribed channel, with the true sender reported (on the wire: claimed sender and inner channel of a forwarded copy equal those of the authentic message with that payload). Evaluated at exact quiescence.")
+	r.SetRule("script = a real FloodSub node V (subscribing alpha, beta or both) with a real honest neighbour W (subscribing alpha, beta, gamma: it would take anything V forwards) and a hostile stream on which the harness writes 5-12 publish packets of 1-3 crafted SignedMsgs (20 classes: honest, honest for a channel V does not subscribe, replay, tampered body, inner channel rewritten, foreign signature with claimed sender, wrong signing contexts, empty channel, bad/empty sender, damaged/missing signature, changed hash type ...; claimed senders include V and W themselves), optional chunked delivery (1-9 bytes per read), optional trailing garbage frame, interleaved with 0-4 honest API publishes by V and W. Every second script additionally carries 2-4 history-dependent forgery chains on the hostile stream (wire order = history): an accepted message (sender A; also the attacker's own authentic message or one for an unsubscribed channel), then optionally a message naming another sender X that is REJECTED (damaged after signing) or accepted, optionally a further message, then a forgery derived from that history: claims the last accepted / an earlier accepted sender but is signed with the key of the sender named immediately before / the attacker / any earlier named sender (with or without that signer's public key attached), or re-uses the signature of an earlier accepted message with changed data, changed inner channel, changed sender, or on another message of the same sender; optionally a second forgery; chains are split over packets in every way (one entry per packet, whole chain in one packet, PRNG cuts) while 2-6 API publishes of V and W flow on the other stream. Every script additionally carries 1-3 honestly SIGNED messages whose signed inner bytes are a non-canonical protobuf encoding written by a harness-side wire writer (14-entry round-robin: channel field twice with first subscribed / last unsubscribed, first unsubscribed / last subscribed, both subscribed, three occurrences, first or last occurrence empty; data field twice; timestamp split over several occurrences; unknown fields of every wire type; fields out of order; non-minimal varints in tags and length prefixes; a skipped bytes field containing the encoding of a channel field; PRNG mixtures), signed by the claimed sender under context+(channel a standard last-wins decode reports); ground truth = what the writer put last (self-tested against the protobuf codec). Non-trivial = at least one forged message was written and at least one authentic message from the hostile stream was handed to a V handler (so the stream was live and the reference signing context is right). Oracle = harness ground truth by construction: every handler callback and every copy V or W put on any wire must be a message that is authentic (signed by the claimed sender under context+channel), for the handler's / a subscribed channel, with the true sender reported (on the wire: claimed sender and inner channel of a forwarded copy equal those of the authentic message with that payload). Evaluated at exact quiescence.")
 	r.Assume("an authentic message with an out-of-range timestamp may be delivered or dropped (the property does not speak about timestamps)")
 	r.Assume("replays of authentic messages are authentic (de-duplication is C28)")
 	env, err := getEnv()
@@ -769,8 +784,10 @@ func TestC27(t *testing.T) {
 	pool := keys.Pool(r.Rand("c27-keys"), 16)
 	n := r.N(200, 3000)
 	scripts := make([]*c27script, n)
+	rngNC := r.Rand("c27-noncanonical")
 	for i := range scripts {
 		scripts[i] = genC27(rng, i)
+		spliceNC(rngNC, scripts[i])
 	}
 	jr := newJournal(r)
 	parallel(n, 16, func(i int) { runC27(r, env, pool, scripts[i], jr) })
